@@ -8,6 +8,7 @@ from __future__ import annotations
 import asyncio
 import functools
 import itertools
+import json
 import operator
 
 import anyio
@@ -114,18 +115,32 @@ class SSrc:
         self.calls += 1
 
 
+async def _agen(items):
+    for v in items:
+        yield v
+
+
 def src(seq, kind):
+    if kind == "g":
+        return _agen(list(seq))     # a real async generator: closable, and finished once closed
     return ASrc(seq) if kind == "a" else list(seq)
+
+
+_PACE = {}      # task -> list of pauses (loop cycles) taken after each item; used by the interleaved-pair cases
 
 
 async def take(ait_, k=None):
     out = []
     it = ait_.__aiter__()
+    pace = _PACE.get(asyncio.current_task())
     while k is None or len(out) < k:
         try:
             out.append(await it.__anext__())
         except StopAsyncIteration:
             break
+        if pace:
+            for _ in range(pace[len(out) % len(pace)]):
+                await asyncio.sleep(0)
     if k is not None and hasattr(it, "aclose"):
         await it.aclose()
     return out
@@ -174,7 +189,8 @@ def build(case):
         outer = p["outer"]
         inner = [S(i) for i in range(len(seqs))]
         return (lambda: list(itertools.chain.from_iterable(seqs)),
-                lambda: take(ait.chain.from_iterable(ASrc(inner) if outer == "a" else inner)))
+                lambda: take(ait.chain.from_iterable(ASrc(inner) if outer == "a" else _agen(inner) if outer == "g"
+                                                     else inner)))
     if fn in ("combinations", "combinations_with_replacement"):
         r = p["r"]
         return (lambda: list(getattr(itertools, fn)(seqs[0], r)), lambda: take(getattr(ait, fn)(S(0), r)))
@@ -266,12 +282,26 @@ async def run_tee(case, out):
         return
     got = [[] for _ in its]
     done = [False] * len(its)
+    cancelled_pulls = [0]
     if mode == "plan":
         for c in plan:
             if not its:
                 break
+            doomed = c >= 100
+            c %= 100
             c %= len(its)
             if done[c]:
+                continue
+            if doomed:
+                # a pull inside an already cancelled scope: it either raises (then nothing may have been consumed)
+                # or hands out the next item; the consumer carries on afterwards
+                cancelled_pulls[0] += 1
+                with anyio.CancelScope() as sc:
+                    sc.cancel()
+                    try:
+                        got[c].append(await its[c].__anext__())
+                    except StopAsyncIteration:
+                        done[c] = True
                 continue
             try:
                 got[c].append(await its[c].__anext__())
@@ -297,8 +327,49 @@ async def run_tee(case, out):
     for c in range(len(its)):
         if got[c] != list(seq):
             out.bad("tee-consumer-sequence", mode, f"consumer {c} saw {got[c]} expected {seq}")
-    if its and source.calls != len(seq) + 1:
+    if cancelled_pulls[0]:
+        out.labels.append("tee-cancelled-pull")
+    if its and source.calls != len(seq) + 1 and not cancelled_pulls[0]:
         out.bad("tee-source-consumed-once", mode, f"source advanced {source.calls} times for {len(seq)} items")
+
+
+async def run_pair(case, out):
+    """Two iterators (of the same or of different functions) alive at once, consumed by two tasks that alternate item
+    by item: each must still agree with its stdlib twin (no state shared between instances)."""
+    subs = [case["a"], case["b"]]
+    refs = []
+    for sub in subs:
+        ref_thunk, _ = build(sub)
+        try:
+            refs.append((ref_thunk(), None))
+        except Exception as e:  # noqa: BLE001
+            refs.append((None, e))
+    results = [None, None]
+
+    async def runner(i):
+        _PACE[asyncio.current_task()] = case["pace"][i] or None
+        try:
+            for _ in range(case["delay"][i]):
+                await asyncio.sleep(0)
+            _, real_fn = build(subs[i])
+            try:
+                results[i] = (await real_fn(), None)
+            except Exception as e:  # noqa: BLE001
+                results[i] = (None, e)
+        finally:
+            _PACE.pop(asyncio.current_task(), None)
+
+    async with anyio.create_task_group() as tg:
+        tg.start_soon(runner, 0)
+        tg.start_soon(runner, 1)
+    for i, sub in enumerate(subs):
+        (ref, ref_exc), (real, real_exc) = refs[i], results[i]
+        if ref_exc is not None or real_exc is not None:
+            if type(ref_exc) is not type(real_exc):
+                out.bad("error-class", f"pair:{sub['fn']}:ref={type(ref_exc).__name__}|real={type(real_exc).__name__}",
+                        f"{case} ref={ref_exc!r} real={real_exc!r}")
+        elif ref != real:
+            out.bad("result", "pair:" + sub["fn"], f"{case}: iterator {i} ref={ref!r} real={real!r}")
 
 
 # ------------------------------------------------------------------ running
@@ -321,6 +392,11 @@ def run_case(case) -> Outcome:
         loop.run_until_complete(run_tee(case, out))
         out.nontrivial = len(case["seqs"][0]) > 0 and case["p"]["n"] >= 2
         out.labels.append("tee")
+        return out
+    if fn == "pair":
+        loop.run_until_complete(run_pair(case, out))
+        out.nontrivial = True
+        out.labels += ["pair", "pair:" + case["a"]["fn"]]
         return out
     ref_thunk, real_fn = build(case)
     try:
@@ -359,6 +435,36 @@ def _seqs(maxlen, alphabet=(0, 1, 2)):
 
 
 def enumerate_cases(tier):
+    yield from _enumerate_single(tier)
+    yield from _enumerate_pairs(tier)
+
+
+def _enumerate_pairs(tier):
+    """Every function twice at the same time: a fixed set of small inputs per function (closable generator sources),
+    all ordered pairs, both start orders, two pacings."""
+    by_fn = {}
+    for case in _enumerate_single("quick"):
+        fn = case["fn"]
+        if fn == "tee" or case["kinds"] == [] or case["kinds"][0] != "a":
+            continue
+        lst = by_fn.setdefault(fn, [])
+        size = sum(len(x) for x in case["seqs"])
+        if size >= 2 and len(lst) < (4 if tier == "quick" else 6) and all(len(x) >= 1 for x in case["seqs"]) \
+                and not any(sum(len(x) for x in c["seqs"]) == size for c in lst):      # (inputs of different lengths)
+            c = json.loads(json.dumps(case))
+            c["kinds"] = ["g"] * len(c["kinds"])
+            if "outer" in c["p"]:
+                c["p"]["outer"] = "g"
+            lst.append(c)
+    for fn in sorted(by_fn):
+        for a in by_fn[fn]:
+            for b in by_fn[fn]:
+                for delay in ([0, 0], [0, 1], [1, 0]):
+                    for pace in ([[1], [1]], [[1], [3]], [[3], [1]]):
+                        yield {"fn": "pair", "a": a, "b": b, "seqs": [], "kinds": [], "pace": pace, "delay": delay}
+
+
+def _enumerate_single(tier):
     L = 4 if tier == "quick" else 5
     ints = list(range(-2, 6 if tier == "quick" else 7))
     optints = [None] + ints
@@ -443,6 +549,18 @@ def enumerate_cases(tier):
 
 
 def _gen(g):
+    if g.chance(15):
+        a, b = _gen1(g, closable=True), _gen1(g, closable=True)
+        if a["fn"] != "tee" and b["fn"] != "tee":
+            if g.chance(65):
+                b = dict(_gen1(g, force=a["fn"], closable=True))
+            return {"fn": "pair", "a": a, "b": b, "seqs": [], "kinds": [],
+                    "pace": [[g.int(0, 2) for _ in range(g.int(0, 3))] for _ in range(2)],
+                    "delay": [g.int(0, 2), g.int(0, 2)]}
+    return _gen1(g)
+
+
+def _gen1(g, force=None, closable=False):
     ek = g.choice(["int", "int", "str", "tuple"])
     if ek == "int":
         elem = st.integers(-3, 9)
@@ -455,13 +573,15 @@ def _gen(g):
         return g.sample(st.lists(elem, max_size=maxlen))
 
     def kind():
-        return g.choice(["s", "a"])
+        return g.choice(["s", "a", "g", "g"] if closable else ["s", "a", "s", "a", "g"])
 
     optint = lambda: g.choice([None, -3, -1, 0, 1, 2, 3, 4, 7, 13])  # noqa: E731
     fn = g.choice(["accumulate", "batched", "chain", "chain.from_iterable", "combinations",
                    "combinations_with_replacement", "compress", "count", "cycle", "dropwhile", "filterfalse",
                    "groupby", "islice", "pairwise", "permutations", "product", "repeat", "starmap", "tee",
                    "takewhile", "zip_longest", "reduce", "tee", "islice"])
+    if force is not None:
+        fn = force
     if fn == "accumulate":
         f = g.choice([None, "add", "max", "first", "pair"] + (["mul", "sub"] if ek == "int" else []))
         s = seq()
@@ -518,7 +638,7 @@ def _gen(g):
     if fn == "tee":
         n = g.choice([-1, 0, 1, 2, 2, 3, 3, 4])
         mode = g.choice(["plan", "tasks", "tasks"])
-        plan = [g.int(0, 8) for _ in range(g.int(0, 24))]
+        plan = [g.int(0, 8) + (100 if g.chance(12) else 0) for _ in range(g.int(0, 24))]
         return {"fn": fn, "seqs": [seq(8)], "kinds": [kind()],
                 "p": {"n": n, "plan": plan, "mode": mode, "yields": g.int(0, 3)}}
     raise AssertionError(fn)
